@@ -1,5 +1,6 @@
 (* Executable entry points of the C09 model and specification oracles. *)
-From Verif Require Import Lib.Bytes Json.Ast Json.Parse Auth.StateNeeded.
+From Verif Require Import Lib.Bytes Json.Ast Json.Parse Auth.StateNeeded Auth.Checker.
+From Verif Require Import Auth.Types Auth.Versions Auth.Model Auth.CheckerAuth.
 Open Scope N_scope.
 
 Definition nl : bytes := [10].
@@ -166,10 +167,63 @@ Definition prop_invariance (args : list bytes) : bytes :=
   | _ => bs "badargs"
   end.
 
+(* ---- the reused checker over the auth model ---- *)
+Definition sig_table (j : json) : list (bytes * bytes * bytes) :=
+  match j with
+  | JArr l =>
+      flat_map (fun t => match t with
+                         | JArr [JStr pk; JStr d; JStr k] => [(pk, d, k)]
+                         | _ => []
+                         end) l
+  | _ => []
+  end.
+Definition table_oracle (tbl : list (bytes * bytes * bytes)) (pk d k : bytes) : bool :=
+  existsb (fun t => match t with (pk', d', k') => bytes_eqb pk pk' && bytes_eqb d d' && bytes_eqb k k' end) tbl.
+
+(* signature tables are supplied per pool event (aligned with the pool), looked up by event ID *)
+Definition sig_of_tables (evs : list json) (tbls : list json) (e : json) : bytes -> bytes -> bytes -> bool :=
+  match find (fun p => bytes_eqb (ev_id (fst p)) (ev_id e)) (combine evs tbls) with
+  | Some (_, t) => table_oracle (sig_table t)
+  | None => fun _ _ _ => false
+  end.
+
+Definition jnat (j : json) : nat := match jint j with Some z => Z.to_nat z | None => O end.
+
+Fixpoint decode_steps (evs : list json) (i : N) (sts : list json) : list (provider * json) :=
+  match sts with
+  | [] => []
+  | st :: r =>
+      let same := match jget_str (bs "p") st with Some s => bytes_eqb s (bs "same") | None => false end in
+      let set := match jget (bs "set") st with Some (JArr l) => map jnat l | _ => [] end in
+      let ev := match jget (bs "ev") st with Some j => jnat j | None => O end in
+      ({| p_id := if same then 0 else i + 1;
+          p_events := map (fun k => (N.of_nat k, nth k evs JNull)) set |}, nth ev evs JNull)
+      :: decode_steps evs (i + 1) r
+  end.
+
+(* [ver; steps; signature tables; pool event ...] -> reused verdicts | one-shot (Allowed) verdicts *)
+Definition run_sequence (args : list bytes) : bytes :=
+  match args with
+  | ver :: steps :: sigs :: pool =>
+      match flags_of_version ver, parse_json steps, parse_json sigs, parse_all pool with
+      | Some f, Some (JArr sts), Some (JArr tbls), Some evs =>
+          let so := sig_of_tables evs tbls in
+          let seq := decode_steps evs 0 sts in
+          let shared0 := {| p_id := 0; p_events := [] |} in
+          let reused := run_checker9 so f (new_context9 f shared0) seq in
+          let alone := map (fun pe => allowed9 so f (snd pe) (p_auths (fst pe))) seq in
+          join_bytes comma (map (fun v => verdict_bytes (Some v)) reused) ++ [124] ++
+          join_bytes comma (map (fun v => verdict_bytes (Some v)) alone)
+      | _, _, _, _ => bs "badargs"
+      end
+  | _ => bs "badargs"
+  end.
+
 Definition ops_C09 : list (bytes * (list bytes -> bytes)) :=
   [ (bs "C09.state_needed", run_state_needed);
     (bs "C09.needed_proto", run_needed_proto);
     (bs "C09.add_auth_events", run_add_auth_events);
+    (bs "C09.sequence", run_sequence);
     (bs "C09.prop.add_auth_events_covers", prop_add_auth_events_covers);
     (bs "C09.prop.reuse_transparent", prop_reuse_transparent);
     (bs "C09.prop.invariance", prop_invariance);
